@@ -4,6 +4,6 @@ Extraction Language OCaml.
 Extraction "model_C05.ml" current_behaviour code_today repaired_except_pinned repaired
   getOffsetAndCount_tag taggedData_tag taggedData_tag_ref featureData_tag
   getOffsetAndCount_mtag getOffsetAndCount_mtag1 taggedData_mtag_ref taggedData_mtag1_ref featureData_mtag featureData_mtag1
-  default_match_retrieval default_match_offcnt view_ids
+  default_match_retrieval default_match_offcnt default_match_deprecated view_ids
   spec_tag_view spec_mtag_view spec_tag_feature spec_mtag_feature spec_mtag_views spec_mtag_offcnts spec_mtag_features answers mtag_npos
   fis_finite ofZ.
